@@ -64,7 +64,7 @@ def run(ctx):
                 r = pr.value
                 if not isinstance(r, PredicatedM) or len(r.params) != len(s.params) or (r.pred is not s.pred): return z3.BoolVal(False)
                 return z3.And(*[param_eq(r.params[i], X.ite_param(s.params[i].key == po.key, pn, s.params[i])) for i in range(len(s.params))])
-            ctx.add(Obligation(f'C15.Predicated.substitute.arity{k}', all_paths(paths, post), hyps=[z3.Implies(pn.key == po.key, pn.is_const == po.is_const)] + [z3.Implies(ParamV(f'p{i}').key == po.key, ParamV(f'p{i}').is_const == po.is_const) for i in range(k)],
+            ctx.add(Obligation(f'C15.Predicated.substitute.arity{k}', all_paths(paths, post), hyps=[z3.Implies(pn.key == po.key, pn.is_const == po.is_const)] + [z3.Implies(ParamV(f'p{i}').key == po.key, ParamV(f'p{i}').is_const == po.is_const) for i in range(k)] + X.param_axioms([pn, po] + [ParamV(f'p{i}') for i in range(k)]),
                                where=fi.where, meta=dict(clause='result = predicate applied to [pnew if p == pold else p for p in params]; the pnew == pold shortcut agrees')))
         except Outside as e:
             ctx.add_result(Result(f'C15.Predicated.substitute.arity{k}', 'unknown', detail=f'outside subset: {e}'))
